@@ -93,10 +93,13 @@ type Event struct {
 	Op     string `json:"op,omitempty"` // operationName, "" = none
 	PQ     string `json:"pq,omitempty"` // raw JSON value of extensions.persistedQuery, "" = no extension
 
-	Ext     string `json:"ext"` // none | null | malformed | ok
+	Ext     string `json:"ext"` // none | null | malformed | ok | ambiguous (see ambiguous.go)
 	Version int    `json:"version,omitempty"`
 	Hash    string `json:"hash,omitempty"`
-	Core    bool   `json:"core,omitempty"`
+	// ambiguous only: the values of all members that spell `version` / `sha256Hash` in any case
+	AltVersion []int    `json:"alt_versions,omitempty"`
+	AltHash    []string `json:"alt_hashes,omitempty"`
+	Core       bool     `json:"core,omitempty"`
 }
 
 func pqJSON(version int, hash string) string {
